@@ -19,20 +19,21 @@ RULE = ('pairs of magnitudes with/without absolute uncertainty, of either sign, 
         'operand; distinct by (op, signs, shapes, which side is uncertain, units)')
 SHARDS = {'quick': 16, 'thorough': 16}
 MIN_NONTRIVIAL = {'quick': 5000, 'thorough': 120000}
-REQUIRED_CLASSES = ['cancelling-units-collapse', 'quantity-ops-same-dimension-other-unit', 'mag:add', 'mag:sub', 'mag:mul', 'mag:truediv', 'mag:pow', 'mag:neg', 'exact-partner-negative', 'exact-partner-left',
+REQUIRED_CLASSES = ['relative-uncertainty-input', 'relative-uncertainty-on-negative-value', 'relative-uncertainty-ctor', 'relative-uncertainty-setter', 'cancelling-units-collapse', 'quantity-ops-same-dimension-other-unit', 'mag:add', 'mag:sub', 'mag:mul', 'mag:truediv', 'mag:pow', 'mag:neg', 'exact-partner-negative', 'exact-partner-left',
                     'both-uncertain-positive', 'both-exact', 'array', 'scalar', 'negative-exponent', 'quantity-conversion',
                     'quantity-mixed-unit-sum', 'quantity-ops', 'repo-tests-under-contracts', 'value-query-then-reuse', 'sum-evaluated-twice']
 REQUIRED_MONITORS = ['contract:Magnitude._add', 'contract:Magnitude._sub', 'contract:Magnitude._mul', 'contract:Magnitude._truediv',
                      'contract:Magnitude.__pow__', 'contract:Magnitude.__neg__', 'contract:UnitType.convert',
-                     'contract:UnitType.convert:linear-with-uncertainty', 'conversion_scaling_compares', 'collapse_scaling_compares', 'quantity_result_relative_uncertainty_compares', 'mixed_sum_compares', 'value_query_uncertainty_compares',
+                     'contract:UnitType.convert:linear-with-uncertainty', 'relative_input_compares', 'relative_input_result_nonneg_compares', 'conversion_scaling_compares', 'collapse_scaling_compares', 'quantity_result_relative_uncertainty_compares', 'mixed_sum_compares', 'value_query_uncertainty_compares',
                      'repo_tests_contract_evaluations']
-ASSUMPTIONS = ['inputs carry non-negative absolute uncertainties (constructed with abse)',
+ASSUMPTIONS = ['inputs carry non-negative uncertainties: absolute (abse) or relative in percent (rele), in the constructor or through the setter',
                'k / uncertain and the power formula are only held to non-negativity of the result',
                'relative slack 1e-12 on the first-order lower bounds, rtol 1e-9 elsewhere',
                'contracts are record-only']
 KEY_NEGFACTOR = 'C08-negative-exact-factor-gives-negative-uncertainty'
 KEY_NEGPOW = 'C08-negative-power-gives-negative-uncertainty'
 KEY_CONV = 'C08-linear-conversion-does-not-scale-uncertainty'
+KEY_RELNEG = 'C08-relative-uncertainty-of-negative-value-is-negative'
 
 FAM = {'length': ['m', 'km', 'cm', 'in', 'mm', 'au'], 'time': ['s', 'ms', 'min', 'h'], 'energy': ['J', 'erg', 'eV', 'kJ', 'kg*m2/s2'],
        'speed': ['m/s', 'km/h', 'mph'], 'mass': ['g', 'kg', 'lb', 'u']}
@@ -112,6 +113,13 @@ def cases(rng, tier, shard, nshards, ctx):
             ua, ub = rng.choice(FAM[fam]), rng.choice(FAM[fam])
             xa, xb = gv(rng, arr), gv(rng, arr and rng.random() < 0.5)
             yield dict(t='qsum', ua=ua, ub=ub, xa=xa, xb=xb, ea=ge(rng, xa), eb=ge(rng, xb) if rng.random() < 0.8 else None, sign=rng.choice([1, -1]))
+        elif r < 0.93 and r >= 0.89:
+            # uncertainty given RELATIVELY (percent), in the constructor or through the setter, for values of either sign
+            fam = rng.choice(list(FAM))
+            x = gv(rng, arr)
+            yield dict(t='rel', level=rng.choice(['M', 'Q']), how=rng.choice(['ctor', 'setter']), x=x, p=rng.choice([1, 5, 10, 0.5, 20]), u=rng.choice(FAM[fam]),
+                       v=rng.choice(FAM[fam]), op=rng.choice(['none', 'add', 'sub', 'mul', 'truediv', 'neg', 'pow', 'mulnum', 'to']),
+                       y=gv(rng, False), ey=ge(rng, 1.0) if rng.random() < 0.6 else None, k=rng.choice([-3.0, 2.0, -0.5, 4]))
         elif r < 0.89:
             fam = rng.choice(list(FAM))
             u, v = rng.sample(FAM[fam], 2)
@@ -291,6 +299,44 @@ def _run(case, ctx):
                         if not all(r >= (ra + rel_b) * (1 - 1e-9) for r, ra in zip(rel_r, rel_a)):
                             devs.append(dev('quantity-%s-below-first-order-uncertainty' % op,
                                             dict(case=case, result_relative=rel_r, first_order=[ra + rel_b for ra in rel_a], result=safe(res))))
+        elif t == 'rel':
+            classes += ['relative-uncertainty-input', 'relative-uncertainty-' + case['how'], 'array' if isinstance(case['x'], list) else 'scalar']
+            uncertain = True
+            x, pct = case['x'], case['p']
+            xs = x if isinstance(x, list) else [x]
+            if any(z < 0 for z in xs):
+                classes.append('relative-uncertainty-on-negative-value')
+            xv = list(x) if isinstance(x, list) else x
+            if case['level'] == 'M':
+                a = M(xv, rele=pct) if case['how'] == 'ctor' else M(xv).rele(pct)
+                b = M(case['y'], abse=case['ey']) if case['ey'] is not None else M(case['y'])
+            else:
+                a = Q(xv, case['u'], rele=pct) if case['how'] == 'ctor' else Q(xv, case['u']).rele(pct)
+                b = Q(case['y'], case['u'], abse=case['ey']) if case['ey'] is not None else Q(case['y'], case['u'])
+            mon['relative_input_compares'] = 1
+            ae = lst(a.abse())
+            exp = [abs(z) * pct / 100.0 for z in xs]
+            negkey = KEY_RELNEG if any(z < 0 for z in xs) else None
+            if ae is None or len(ae) != len(exp) or not all(close(o, e_, 1e-9) for o, e_ in zip(ae, exp)):
+                twin = [z * pct / 100.0 for z in xs]
+                devs.append(dev('relative-uncertainty-gives-wrong-absolute-uncertainty', dict(x=x, percent=pct, how=case['how'], observed=ae, expected=exp),
+                                known=negkey if ae is not None and len(ae) == len(twin) and all(close(o, e_, 1e-9) for o, e_ in zip(ae, twin)) else None))
+            rl = lst(a.rele())
+            if rl is None or not all(close(o, pct, 1e-9) for o in rl):
+                devs.append(dev('relative-uncertainty-not-read-back', dict(x=x, percent=pct, how=case['how'], observed=rl),
+                                known=negkey if rl is not None and all(close(abs(o), pct, 1e-9) for o in rl) else None))
+            op, k = case['op'], case['k']
+            if op == 'to' and case['level'] == 'M':
+                op = 'neg'
+            res = {'none': lambda: a, 'add': lambda: a + b, 'sub': lambda: a - b, 'mul': lambda: a * b, 'truediv': lambda: a / b, 'neg': lambda: -a,
+                   'pow': lambda: a ** 2, 'mulnum': lambda: a * k, 'to': lambda: a.to(case['v'])}[op]()
+            classes.append('relative-uncertainty-then-' + ('op' if op != 'none' else 'read'))
+            re_ = lst(res.abse())
+            mon['relative_input_result_nonneg_compares'] = 1
+            if re_ is not None and any(o < 0 for o in re_):
+                # the operands' own (negative) uncertainty explains a negative result only through the recorded mechanism
+                devs.append(dev('negative-uncertainty-in-result-of-%s' % op, dict(x=x, percent=pct, op=op, result_abse=re_),
+                                known=negkey if (ae is not None and any(o < 0 for o in ae)) else None))
         elif t == 'qcollapse':
             # a quantity written in units that cancel (km/m, kJ/J, h*s-1) is folded into a pure number: value and absolute
             # uncertainty are scaled by the same factor
@@ -383,4 +429,6 @@ def pinned(ctx):
             (KEY_NEGFACTOR, dict(t='mag', op='truediv', a=[2.0, 0.1], b=[-4.0, None], form='MM')),
             (KEY_NEGPOW, dict(t='mag', op='pow', a=[2.0, 0.1], p=-1)),
             (KEY_CONV, dict(t='qconv', u='m', v='cm', x=1.0, e=0.1, how='to')),
-            (KEY_CONV, dict(t='qsum', ua='m', ub='cm', xa=1.0, xb=50.0, ea=0.1, eb=5.0, sign=1))]
+            (KEY_CONV, dict(t='qsum', ua='m', ub='cm', xa=1.0, xb=50.0, ea=0.1, eb=5.0, sign=1)),
+            (KEY_RELNEG, dict(t='rel', level='Q', how='ctor', x=-5.0, p=10, u='m', v='cm', op='add', y=1.0, ey=0.1, k=2.0)),
+            (KEY_RELNEG, dict(t='rel', level='M', how='setter', x=[-5.0, 5.0], p=10, u='m', v='cm', op='mulnum', y=1.0, ey=None, k=2.0))]
